@@ -211,6 +211,34 @@ def run(ctx):
                 ctx.disagree(f"conserve:{name}", f"<{name}> {v0} -> {v1} under spin-free evolution",
                              {"wfn": wk, "norb": norb, "case": case})
 
+    # ---- D. conservation in large sectors (hundreds of strings per spin: the batched kernels of the quadratic route) ----
+    # high-spin determinants are exact S^2 eigenstates; a spin-free one-body evolution must keep <S^2>, <Sz>, <N> and the norm
+    from scipy.special import comb as _comb
+    for norb, na, nb in ([(11, 1, 5), (11, 5, 1)] if quick else [(11, 1, 5), (11, 5, 1), (12, 4, 1), (12, 1, 4), (10, 5, 4), (13, 1, 5)]):
+        key = (na + nb, na - nb)
+        ket = fqe.Wavefunction([[na + nb, na - nb, norb]])
+        arr = numpy.zeros(ket.get_coeff(key).shape, dtype=numpy.complex128)
+        arr[0, 0] = 1.0                       # lowest strings: alpha orbitals 0..na-1, beta orbitals 0..nb-1 (nested shells)
+        ket.set_wfn(strategy="from_data", raw_data={key: arr})
+        nr_ = numpy.random.RandomState(rng.randrange(2 ** 31))
+        a_ = nr_.standard_normal((norb, norb)) + 1j * nr_.standard_normal((norb, norb))
+        ham = fqe.get_restricted_hamiltonian(((a_ + a_.conj().T) / 2,))
+        try:
+            out = ket.time_evolve(0.7, ham)
+        except Exception as exc:
+            ctx.disagree(f"dynamics-raises:wide:{type(exc).__name__}", str(exc)[:200], {"norb": norb, "nalpha": na, "nbeta": nb})
+            continue
+        s_ = abs(na - nb) / 2.0
+        expect = {"N": na + nb, "Sz": (na - nb) / 2.0, "S2": s_ * (s_ + 1)}
+        for name in ("N", "Sz", "S2"):
+            v0 = complex(ket.expectationValue(ops[name]))
+            v1 = complex(out.expectationValue(ops[name]))
+            ctx.case(("conserve-wide", name, norb, na, nb))
+            ctx.count("conserve-wide")
+            if abs(v0 - v1) > 1e-8 * max(1.0, abs(v0)) or abs(v0 - expect[name]) > 1e-8 or abs(out.norm() - 1) > 1e-9:
+                ctx.disagree(f"conserve:{name}:wide-sector", f"<{name}> {v0} -> {v1} (closed form {expect[name]}), norm {out.norm()} under "
+                             f"spin-free evolution of a {arr.shape} sector", {"norb": norb, "nalpha": na, "nbeta": nb})
+
 
 def replay(ctx, rep):
     run(ctx)
